@@ -36,9 +36,10 @@ class Model:
         self.hook = on_call
         self.oracle = oracle
         self.whole_bodies = False  # run loops / with-blocks of every called method on the concrete values
+        self.auto_construct = False  # `ClassOfThePackage(...)` / `cls(...)` / `Class.classmethod(...)` run abstractly too
         self.cache: Dict[Tuple[int, str, Tuple[object, ...]], object] = {}
 
-    def new(self, cls: str, **kwargs: object) -> "MObj":
+    def new(self, cls: str, *args: object, **kwargs: object) -> "MObj":
         obj = MObj(self, cls, {})
         init = self.ctx.repo.find_method(self.ctx.repo.require_class(cls), "__init__")
         if init is None:
@@ -46,7 +47,9 @@ class Model:
         params = [a.arg for a in init.node.args.args][1:] + [a.arg for a in init.node.args.kwonlyargs]
         if set(kwargs) - set(params):
             raise AnalysisError(f"{self.rule}: {cls}.__init__ no longer takes {sorted(set(kwargs) - set(params))}")
-        self.call(obj, "__init__", [], kwargs)
+        r = self.call(obj, "__init__", list(args), kwargs)
+        if r is RAISES:
+            raise _ConstructorRaises(cls)
         return obj
 
     def call_function(self, fn, args: List[object], kwargs: Optional[Dict[str, object]] = None) -> object:  # type: ignore[no-untyped-def]
@@ -124,6 +127,42 @@ class Model:
                 r = self.hook(e, a, env2, ex)
                 if r is not None:
                     return r
+            if self.auto_construct:
+                target_cls: Optional[str] = None
+                via_class_method: Optional[str] = None
+                head = e.func if isinstance(e.func, ast.Name) else (e.func.value if isinstance(e.func, ast.Attribute) and isinstance(e.func.value, ast.Name) else None)
+                if head is not None:
+                    hv = env2.get(head.id)
+                    if isinstance(hv, ClassModel):
+                        target_cls = hv.cls
+                    elif head.id not in env2:
+                        try:
+                            gv = self.ctx.folder.global_value(fn.module, head.id)
+                        except (NotConst, AnalysisError):
+                            gv = None
+                        from sa.consteval import ClassRef as _CR
+
+                        if isinstance(gv, _CR) and gv.cls.module.name.startswith("jsonpath"):
+                            target_cls = gv.cls.qualname
+                    if target_cls is not None and isinstance(e.func, ast.Attribute):
+                        via_class_method = e.func.attr
+                if target_cls is not None and not any(isinstance(x, ast.Starred) for x in e.args) and all(k.arg for k in e.keywords):
+                    kwc = {k.arg: ex.value(k.value, env2) for k in e.keywords if k.arg}
+                    info = self.ctx.repo.require_class(target_cls)
+                    if via_class_method is None:
+                        if self.ctx.repo.find_method(info, "__init__") is not None and not self.ctx.repo.is_subclass(target_cls, "Exception"):
+                            try:
+                                return self.new(target_cls, *a, **kwc)
+                            except _ConstructorRaises:
+                                raise _PathRaises("constructor raises") from None
+                    else:
+                        cm = self.ctx.repo.find_method(info, via_class_method)
+                        decos = [ast.unparse(d) for d in cm.node.decorator_list] if cm is not None else []
+                        if cm is not None and ("classmethod" in decos or "staticmethod" in decos):
+                            rc = self._run(cm, ClassModel(self, target_cls, {}), via_class_method, list(a), kwc, bind_self="classmethod" in decos)
+                            if rc is RAISES:
+                                raise _PathRaises("callee raises")
+                            return RETURNS_NONE if rc is None else rc
             if isinstance(e.func, ast.Name) and e.func.id not in env2 and e.func.id not in fn.module.functions and e.func.id in fn.module.imports:
                 # a function of another module of the package, imported by name
                 src_mod, src_name = fn.module.imports[e.func.id]
@@ -161,6 +200,7 @@ class Model:
         is_gen = any(isinstance(n, (ast.Yield, ast.YieldFrom)) for n in ast.walk(fn.node))
         ex = Explorer(self.ctx.folder, fn, self.oracle, on_call=on_call, enter_loops=is_gen or self.whole_bodies,
                       enter_with=is_gen or self.whole_bodies)
+        ex.call_function = lambda f_, a_: self.call_function(f_, list(a_))
         self.depth += 1
         try:
             outs = ex.run(env)
@@ -236,12 +276,24 @@ class MObj(AbstractObject):
     def peval_getattr(self, name: str) -> object:
         if name in self.fields:
             return self.fields[name]
+        # a method held as a value (`decoders.append(cls._unicode_escape)`)
+        if self.cls and not self.cls.startswith("$"):
+            try:
+                info_ = self.model.ctx.repo.require_class(self.cls)
+                if self.model.ctx.repo.find_method(info_, name) is not None and name not in ("__init__",):
+                    from sa.peval import Callable_ as _Callable
+
+                    return _Callable("bound", name, obj=self)
+            except AnalysisError:
+                pass
         # not an instance field the constructor set: a class-level constant (a table, a precedence)
         try:
             v = self.model.ctx.folder.class_attr(self.model.ctx.repo.require_class(self.cls), name)
         except (NotConst, AnalysisError):
             return UNKNOWN
-        return v if isinstance(v, (str, int, float, bool, tuple, list, dict, frozenset, set)) else UNKNOWN
+        from sa.consteval import RegexConst as _RC
+
+        return v if isinstance(v, (str, int, float, bool, tuple, list, dict, frozenset, set, _RC)) else UNKNOWN
 
     def peval_setattr(self, name: str, value: object) -> None:
         self.fields[name] = value
@@ -256,6 +308,126 @@ class MObj(AbstractObject):
 
     def peval_call(self, method: str, args: List[object], kwargs: Dict[str, object]) -> object:
         return self.model.call(self, method, args, kwargs)
+
+
+class _ConstructorRaises(Exception):
+    pass
+
+
+class ClassModel(MObj):
+    """The class object itself (what `cls` is bound to in a class method)."""
+
+    def peval_isinstance(self, class_names: List[str]) -> Optional[bool]:
+        return None
+
+
+class NodeListModel(list, MObj):  # type: ignore[misc]
+    """A node list: a Python list of model nodes (length, indexing, iteration and truth are the list's own) that is
+    also a model object of jsonpath.match.NodeList, so that its methods (`empty()`, `values()`, ...) are executed
+    abstractly on it."""
+
+    def __init__(self, model: Model, nodes: List[object]) -> None:
+        list.__init__(self, nodes)
+        MObj.__init__(self, model, "jsonpath.match.NodeList", {})
+
+    def __hash__(self) -> int:  # identity, like any model object
+        return id(self)
+
+    def __eq__(self, other: object) -> bool:
+        return self is other
+
+    def __ne__(self, other: object) -> bool:
+        return self is not other
+
+
+class StreamModel(MObj):
+    """A token stream over tokens the rule supplies (the lexer model's reading of a text): `current`, `peek`,
+    `next_token()`, `push()`, `expect()` and `expect_peek()` behave as jsonpath.stream.TokenStream documents them;
+    a failed expectation ends the path like the syntax error it raises."""
+
+    def __init__(self, model: Model, tokens: List[Tuple[str, str]], path: str = "") -> None:
+        super().__init__(model, "jsonpath.stream.TokenStream", {})
+        eof = model.ctx.folder.global_value(model.ctx.repo.modules["jsonpath.token"], "TOKEN_EOF")
+        if not isinstance(eof, str):
+            raise AnalysisError(f"{model.rule}: TOKEN_EOF is not a constant string")
+        self.toks: List[MObj] = []
+        at = 0
+        for kind, value in tokens:
+            self.toks.append(MObj(model, "jsonpath.token.Token", {"kind": kind, "value": value, "index": at, "path": path}))
+            at += max(len(value or ""), 1)
+        self.eof = MObj(model, "jsonpath.token.Token", {"kind": eof, "value": "", "index": -1, "path": path})
+        self.pos = 0
+
+    def _at(self, i: int) -> MObj:
+        return self.toks[i] if 0 <= i < len(self.toks) else self.eof
+
+    def peval_getattr(self, name: str) -> object:
+        if name == "current":
+            return self._at(self.pos)
+        if name == "peek":
+            return self._at(self.pos + 1)
+        return UNKNOWN
+
+    def peval_call(self, method: str, args: List[object], kwargs: Dict[str, object]) -> object:
+        if method in ("next_token", "__next__") and not args:
+            t = self._at(self.pos)
+            if self.pos < len(self.toks):
+                self.pos += 1
+            return t
+        if method == "push" and len(args) == 1 and isinstance(args[0], MObj):
+            self.toks.insert(self.pos, args[0])
+            return None
+        if method in ("expect", "expect_peek") and all(isinstance(a, str) for a in args):
+            tok = self._at(self.pos if method == "expect" else self.pos + 1)
+            return None if tok.fields["kind"] in args else RAISES
+        if method == "close":
+            self.pos = len(self.toks)
+            return None
+        return UNKNOWN
+
+
+SELECTOR_CLASSES = ("PropertySelector", "IndexSelector", "SliceSelector", "WildSelector", "KeysSelector", "Filter", "ListSelector",
+                    "RecursiveDescentSelector")
+
+
+def parse_bracketed(ctx: Ctx, rule: str, text: str, env_fields: Optional[Dict[str, object]] = None) -> object:
+    """Abstract execution of `Parser.parse_selector_list` on the tokens the lexer model reads from `text` (a bracketed
+    selection, `[` first): the selectors it constructs, in order, as (class name, keyword arguments without env and
+    token); RAISES when the parser refuses the text; None when the execution cannot be followed."""
+    from .common import callee_name
+
+    got: List[Tuple[str, Dict[str, object]]] = []
+    model: Model
+
+    def hook(e: ast.Call, a: List[object], env: Dict[str, object], ex) -> object:  # type: ignore[no-untyped-def]
+        n = callee_name(e)
+        if n in SELECTOR_CLASSES:
+            if n != "ListSelector":
+                got.append((n, {k.arg: ex.value(k.value, env) for k in e.keywords if k.arg and k.arg not in ("env", "token")}))
+            return MObj(model, "jsonpath.selectors." + n, {})
+        return None
+
+    model = Model(ctx, rule, hook)
+    model.whole_bodies = True
+    toks = [(k, v) for _r, k, v in ctx.lexer.tokens_of(text)]
+    if any(k == "<ILLEGAL>" for k, _v in toks):
+        return RAISES
+    stream = StreamModel(model, toks, text)
+    fields: Dict[str, object] = {"unicode_escape": True, "max_int_index": 2**53 - 1, "min_int_index": -(2**53) + 1, "well_typed": True}
+    fields.update(env_fields or {})
+    env_obj = MObj(model, "jsonpath.env.JSONPathEnvironment", fields)
+    parser = MObj(model, "jsonpath.parse.Parser", {"env": env_obj})
+    try:
+        r = model.call(parser, "parse_selector_list", [stream])
+    except AnalysisError:
+        return None
+    if r is RAISES:
+        return RAISES
+    if r is UNKNOWN or not isinstance(r, MObj):
+        return None
+    if stream.pos < len(stream.toks) - 1:
+        return None  # tokens left unread: not one bracketed selection
+    return got
 
 
 def run_selector(ctx: Ctx, rule: str, cname: str, mname: str, fields: Dict[str, object], doc: object,
